@@ -445,7 +445,12 @@ class Output(IOutput, Loggable):
         """
         self.logger.trace("chain")
         self.add_target(other)
-        other.source = self
+        try:
+            other.source = self
+        except ValueError:
+            # the target refused the link: do not keep it registered as a target
+            self._targets.pop()
+            raise
         return other
 
     @property
